@@ -36,3 +36,11 @@ for p, mods in (("C11", ["Vet.Props.C11"]), ("C09", ["Vet.Props.C10"]), ("C10", 
 
 PROPS["C07"] = {"lean_modules": ["Vet.Props.C07"], "corr": ["corr.import"], "trusted": ["TOML parsing of peer files (whether a raw entry parses is an input flag of the model)", "toml/serde layer"], "assumptions": ["peer criteria names interned per source; table keys unique (sorted maps)"],
                 "explanation": "Theorems about the model of the import pipeline; correspondence of Store::mock_online on raw peer TOML served by a mock network (1-2 URLs, unparseable / unknown-criteria / non-importable entries, criteria-map incl. built-in overrides, exclude, lock for staleness marking) with importOne+updateFreshness; leak oracle recomputed from the raw peer data."}
+
+PROPS["C15"] = {"lean_modules": ["Vet.Props.C15"], "corr": ["corr.validate", "corr.import", "corr.wire"], "trusted": ["TOML parser (text-level damage is decided by the real loader only)", "today + 12 months computed by chrono and supplied to the model"], "assumptions": CORE_ASSUME,
+                "explanation": "Theorems about the model of Store::validate and the resolver's panic sites; correspondence of the outcome class (refused / verdict / panic class) of the real mock_acquire + resolve with validate + resolve of the model on stores with one injected defect; malformed peer files through the import pipeline; text-level damage of the three files under catch_unwind."}
+PROPS["C16"] = {"lean_modules": ["Vet.Props.C16"], "corr": ["corr.aggregate"], "trusted": ["entries abstracted to content ids by the harness (Debug rendering)", "final tidy() sort not modelled (lists compared as multisets per package)"], "assumptions": [],
+                "explanation": "Theorems about the model of do_aggregate_audits; correspondence with the real routine on 2-3 generated sources; oracles: error-iff, content, loadability, and the verdict with the aggregate imported vs a multi-URL import vs separate imports."}
+PROPS["C18"] = {"lean_modules": ["Vet.Props.C18"], "corr": [], "trusted": ["flock(2) exclusion and POSIX read/write semantics of the OS (assumed, not modelled)", "strace's report of the syscall sequence", "NFS / lock-unsupported file systems and Windows are out of scope"], "assumptions": ["each invocation follows the process program of lean/Vet/Model/Lock.lean (checked by trace conformance on the real Store API)"],
+                "shards": {"quick": 4, "thorough": 8},
+                "explanation": "Theorems about the N-process lock protocol model for all interleavings; tie: syscall-trace conformance of the real Store::acquire_offline/commit with the model's process program, and sampled real schedules (2..6 threads, random think times) checked for lost updates and load errors."}
